@@ -35,6 +35,8 @@ import (
 type c13HpScript struct {
 	mu     sync.Mutex
 	writes []bool // outcome of the next transport writes (missing = success)
+	dials  []bool // outcome of the next transport dials (missing = success)
+	fails  int    // dials that failed
 	last   int    // id of the conn that carried the last successful write
 }
 
@@ -88,6 +90,18 @@ type c13HpDialer struct {
 }
 
 func (d *c13HpDialer) DialContext(context.Context, string, string) (netproxy.Conn, error) {
+	d.sc.mu.Lock()
+	ok := true
+	if len(d.sc.dials) > 0 {
+		ok, d.sc.dials = d.sc.dials[0], d.sc.dials[1:]
+	}
+	if !ok {
+		d.sc.fails++
+	}
+	d.sc.mu.Unlock()
+	if !ok {
+		return nil, errors.New("c13: dial failed")
+	}
 	c := &c13HpConn{id: len(d.conns), sc: d.sc, reads: make(chan error, 4), closeCh: make(chan struct{})}
 	d.conns = append(d.conns, c)
 	return c, nil
@@ -135,7 +149,10 @@ func c13HpDigest(u *c13HpDialer) string {
 		}
 		tr.mu.Unlock()
 	}
-	return fmt.Sprintf("dials=%d eps=%s pool=%s trk=%d:%d", len(u.conns), es, ps, ents, refs)
+	u.sc.mu.Lock()
+	fails := u.sc.fails
+	u.sc.mu.Unlock()
+	return fmt.Sprintf("dials=%d fails=%d eps=%s pool=%s trk=%d:%d", len(u.conns), fails, es, ps, ents, refs)
 }
 
 // the control plane's core (conn-state owner of every endpoint handlePkt creates)
@@ -212,12 +229,25 @@ func c13RunHp(t *testing.T, stats *VStats) {
 			c13HpCore.udpConnStateTracker.Store(newUdpConnStateTracker())
 			cp := &ControlPlane{log: logger, core: c13HpCore, controlPlaneGenerationState: controlPlaneGenerationState{outbounds: outbounds}}
 			cp.udpRouteScopeSensitive = rr.Chance(0.4)
-			s.Emit(fmt.Sprintf("hp consts %d %s", MaxRetry, c13SniffPortRanges()), "ok")
+			s.Emit(fmt.Sprintf("hp consts %d %s %d %d", MaxRetry, c13SniffPortRanges(), udpEndpointJanitorInterval.Milliseconds(), c13FailureTtlMs()), "ok")
 			s.Emit("hp reset", "ok")
 			// a sequence concentrates on one or two flows so that classification changes hit live endpoints
 			nsrc, ndst := 1+rr.Intn(2), 1+rr.Intn(3)
 			nops := 4 + rr.Intn(16)
+			elapsedMs := 0
 			for i := 0; i < nops; i++ {
+				// virtual time passes (the negative cache forgets a failed dial after its lifetime, the janitor
+				// collects the marker at its next tick); a sequence stays shorter than the shortest NAT timeout
+				if rr.Chance(0.12) && elapsedMs < 18000 {
+					f := int(c13FailureTtlMs())
+					ms := []int{100, 250, 1000, f - 1, f, f + 1, f + 250, 3000}[rr.Intn(8)]
+					elapsedMs += ms
+					time.Sleep(time.Duration(ms) * time.Millisecond)
+					synctest.Wait()
+					stats.Inc("hp.adv")
+					s.Emit(fmt.Sprintf("hp adv %d", ms), c13HpDigest(u))
+					continue
+				}
 				if len(u.conns) > 0 && rr.Chance(0.1) {
 					c := u.conns[rr.Intn(len(u.conns))]
 					if c.closes.Load() == 0 {
@@ -285,6 +315,21 @@ func c13RunHp(t *testing.T, stats *VStats) {
 					ws = b.String()
 					stats.Inc("hp.pkt.withWriteFailures")
 				}
+				// scripted dial outcomes (a failing dial at the first or at a later attempt of the retry loop);
+				// only with a fixed-policy group: a health-aware group would also react to the reported failure
+				ds := "-"
+				sc.dials = nil
+				if !healthAware && rr.Chance(0.4) {
+					var b strings.Builder
+					for j, n := 0, 1+rr.Intn(3); j < n; j++ {
+						ok := rr.Chance(0.3)
+						sc.dials = append(sc.dials, ok)
+						b.WriteString(c13B(ok))
+					}
+					ds = b.String()
+					stats.Inc("hp.pkt.withDialScript")
+				}
+				failsBefore := sc.fails
 				sc.last = -1
 				sc.mu.Unlock()
 				rtTok := fmt.Sprintf("%d %d %d %s %s", rt.Outbound, rt.Mark, rt.Dscp, "00000000000000000000000000000000", "000000000000")
@@ -296,9 +341,19 @@ func c13RunHp(t *testing.T, stats *VStats) {
 				if sc.last >= 0 {
 					carried = fmt.Sprintf("e%d", sc.last)
 				}
+				failedDials := sc.fails - failsBefore
+				sc.dials = nil
 				sc.mu.Unlock()
-				if (err != nil) != (carried == "none") {
+				// an error with the packet sent is a disagreement; a packet dropped without an error is what the
+				// negative cache does (ErrEndpointFailed is swallowed; dial errors are logged rate-limited)
+				if err != nil && carried != "none" {
 					carried += fmt.Sprintf(" err=%v", err)
+				}
+				if failedDials > 0 {
+					stats.Inc("hp.pkt.dialFailed")
+				}
+				if carried == "none" && failedDials == 0 && ds == "-" && ws == "-" {
+					stats.Inc("hp.pkt.blockedByNegativeCache")
 				}
 				stats.Inc("hp.pkt." + cls)
 				switch {
@@ -309,8 +364,8 @@ func c13RunHp(t *testing.T, stats *VStats) {
 				default:
 					stats.Inc("hp.outcome.reused")
 				}
-				s.Emit(fmt.Sprintf("hp pkt %s %s %s %s %s %s %s %s", c13ApTok(src), c13ApTok(dst), c13B(fd.HasSnifferSession),
-					c13B(fd.IsQuicInitial), c13B(fd.AllowsSniffing), c13B(cp.udpRouteScopeSensitive), ws, rtTok),
+				s.Emit(fmt.Sprintf("hp pkt %s %s %s %s %s %s %s %s %s", c13ApTok(src), c13ApTok(dst), c13B(fd.HasSnifferSession),
+					c13B(fd.IsQuicInitial), c13B(fd.AllowsSniffing), c13B(cp.udpRouteScopeSensitive), ws, ds, rtTok),
 					fmt.Sprintf("carried=%s %s", carried, c13HpDigest(u)))
 			}
 		})
